@@ -1346,7 +1346,7 @@ def build_items(pid, tier, seed):
     if pid == "C18":
         for n in (1, 2, 3):
             add("states", n, dags[n], "ct", checks=["frontier", "releasable"], allpol=thorough)
-        stride = 2 if thorough else 10
+        stride = 2 if thorough else 5
         add("states", 4, dags[4] if thorough else topo4, "ct", checks=["frontier", "releasable"], stride=stride, allpol=thorough)
         notes.append("frontier/releasable: every reachable state of labelled DAGs <=3 x 2 times x lookahead {0,12,1000} x preemption x retraction x "
                      "release_taskgraphs x policies; 4-node %s DAGs: 1/%d of the states (hash-sampled)"
@@ -1403,6 +1403,7 @@ def main():
     nproc = min(16, os.cpu_count() or 1)
     infeasible = 0
     merged = {}
+    all_samples = []
     import gc
 
     gc.collect()
@@ -1415,9 +1416,7 @@ def main():
             infeasible += infs
             for k, v in calls.items():
                 R.called(k, v)
-            for s in samples:
-                if len(R.samples) < 5:
-                    R.samples.append(s)
+            all_samples.extend(samples)
             for vid, rec in viol.items():
                 if vid in merged:
                     merged[vid][3] += rec[3]
@@ -1430,6 +1429,7 @@ def main():
         what, kind, case, count = merged[vid]
         R.violation(vid, what, make_replay(kind, case, vid))
         R.violations[vid]["count"] = count
+    R.samples = sorted(all_samples, key=lambda x: (len(repr(x)), repr(x)))[-5:]  # deterministic pick
     R.exhaustive = exhaustive
     R.extra["unreachable_state_vectors_skipped"] = infeasible
     R.extra["work_items"] = len(items)
